@@ -1000,15 +1000,35 @@ func (s *Server) handleDecline(req *dhcpv4.DHCPv4) {
 	// Mark IP as unavailable in pool
 	s.leasesMu.Lock()
 	lease, exists := s.leases[mac.String()]
+	if exists && !lease.IP.Equal(declinedIP) {
+		// A DECLINE naming an address the client does not hold is ignored
+		exists = false
+	}
 	if exists {
 		delete(s.leases, mac.String())
 	}
 	s.leasesMu.Unlock()
 
 	if exists && lease != nil {
-		if pool := s.poolMgr.GetPool(lease.PoolID); pool != nil {
-			pool.MarkUnavailable(declinedIP)
+		// Remove from circuit-ID secondary index
+		if len(lease.CircuitID) > 0 {
+			cidKey := hex.EncodeToString(lease.CircuitID)
+			s.leasesByCircuitIDMu.Lock()
+			delete(s.leasesByCircuitID, cidKey)
+			s.leasesByCircuitIDMu.Unlock()
 		}
+
+		// Drop the client's allocation without returning the address to the
+		// pool, so that it is not offered again (not even to the same client)
+		if pool := s.poolMgr.GetPool(lease.PoolID); pool != nil {
+			pool.Decline(mac, declinedIP)
+		}
+		return
+	}
+
+	// DECLINE of an address that was offered but not yet acknowledged
+	if pool := s.poolMgr.ClassifyClient(mac); pool != nil && pool.AllocatedTo(mac, declinedIP) {
+		pool.Decline(mac, declinedIP)
 	}
 }
 
